@@ -12,6 +12,7 @@ CONTRACTS = {
     "S1": {"mult": 1, "cashreq": 1, "mr": F(0), "builtin": "ETF"},
     "F4": {"mult": 4, "cashreq": 0, "mr": F(1, 4)},
     "S2": {"mult": 2, "cashreq": 1, "mr": F(0)},
+    "G1": {"mult": 1, "cashreq": 0, "mr": F(1, 2)},
     "H19": {"mult": 50, "cashreq": 0, "mr": F(1, 10), "builtin": "ES", "ym": (2019, 3)},
     "M19": {"mult": 50, "cashreq": 0, "mr": F(1, 10), "builtin": "ES", "ym": (2019, 6)},
     "U19": {"mult": 50, "cashreq": 0, "mr": F(1, 10), "builtin": "ES", "ym": (2019, 9)},
@@ -32,7 +33,7 @@ def bars(grid, paths, spread):
 def full_model(name, contracts, space, grid, events, targets, lats=(0,), delays=(0,), fees="free", rate=F(0), markup=F(0),
                deposit=F(1000), thr=F(0), maxsteps=3, ruin="done", chain=(), chain_ltd=(), chain_exp=(), yearlen=0,
                base=(2019, 3, 4), invariants=(), properties=(), reset_anywhere=False, clockscope="restored_on_entry",
-               extends="EnvFull", extra_plain=None, chain_offset=0):
+               extends="EnvFull", extra_plain=None, chain_offset=0, fractional=True):
     cs = {c: CONTRACTS[c] for c in contracts}
     fixed, prop = FEES[fees]
     defs = {
@@ -46,7 +47,7 @@ def full_model(name, contracts, space, grid, events, targets, lats=(0,), delays=
         "ChainSeq": list(chain), "ChainLtd": list(chain_ltd), "ChainExp": list(chain_exp), "Thr": thr,
     }
     plain = {"RefRule": "carry", "SpotMult": "applied", "SubLot": "skip", "YearLen": yearlen, "MaxSteps": maxsteps,
-             "RuinStep": ruin, "ResetAnywhere": reset_anywhere, "ClockScope": clockscope, "ChainOffset": chain_offset}
+             "RuinStep": ruin, "ResetAnywhere": reset_anywhere, "ClockScope": clockscope, "ChainOffset": chain_offset, "Fractional": bool(fractional)}
     plain.update(extra_plain or {})
     return {
         "name": name,
@@ -54,7 +55,7 @@ def full_model(name, contracts, space, grid, events, targets, lats=(0,), delays=
         "cfg": tlagen.cfg(defs, plain, invariants=invariants, properties=properties),
         "ctx": {"model": {"contracts": cs, "space": list(space), "chain": list(chain), "fixed": fixed, "prop": prop,
                           "deposit": deposit, "rate": rate, "markup": markup, "thr": thr, "base": list(base),
-                          "chain_offset": chain_offset},
+                          "chain_offset": chain_offset, "fractional": bool(fractional)},
                 "maxsteps": maxsteps, "name": name},
         "invariants": list(invariants), "properties": list(properties),
     }
@@ -186,6 +187,17 @@ def c09_models(tier, ruin="done"):
     ms.append(full_model("crash-interest", ["S1", "F4"], ["S1", "F4"], ygrid, ev_f, [{"S1": F(4)}, {"S1": F(2)}, {}], lats=(0,),
                          delays=(0,), rate=F(1, 8), markup=F(1, 16), yearlen=YEAR, maxsteps=3, ruin=ruin, base=(1989, 1, 1),
                          invariants=C09_INV, properties=C09_PROPS))
+    # a short futures position with a bid/ask spread: it is bought back at the ask, so a rally to 17/18 wipes a 2x short
+    # opened at 12/13 exactly (marked at the bid the account would still look solvent)
+    ev_g = bars(grid, {"S1": [12, 12, 12, 12, 12], "F4": [12, 12, 17, 12, 12]}, {"S1": 0, "F4": 1})
+    ms.append(full_model("crash-short-spread", ["S1", "F4"], ["S1", "F4"], grid, ev_g, [{"F4": F(-2)}, {"F4": F(-1)}, {}], lats=(0,),
+                         delays=(0,), maxsteps=4, ruin=ruin, invariants=C09_INV, properties=C09_PROPS))
+    # two margined contracts open at once (either one first in the account): the loss of each one counts
+    ev_h = bars(grid, {"F4": [12, 12, 8, 12, 12], "G1": [8, 8, 8, 8, 8]}, 0)
+    tg2 = [{"F4": F(3), "G1": F(1, 2)}, {"F4": F(3)}, {"G1": F(1, 2)}, {}]
+    for nm, sp in (("crash-two-margined", ["F4", "G1"]), ("crash-two-margined-rev", ["G1", "F4"])):
+        ms.append(full_model(nm, ["F4", "G1"], sp, grid, ev_h, tg2, lats=(0,), delays=(0,), maxsteps=3, ruin=ruin,
+                             invariants=C09_INV, properties=C09_PROPS))
     if tier != "quick":
         ev_d = bars(grid, {"S1": [12, 12, 12, 12, 12], "F4": [12, 12, 8, 12, 12]}, {"S1": 0, "F4": 4})
         ms.append(full_model("crash-fees", ["S1", "F4"], ["S1", "F4"], grid, ev_d, tg, lats=(0, L), delays=(0, 1), fees="dy",
@@ -239,6 +251,15 @@ def c11_models(tier):
     # a no-trade threshold: the old lead is closed at the roll even when its weight is below the threshold
     ms.append(full_model("roll-small", cs, ["S1", "CH"], grid, ev, [{"CH": H}, {"CH": F(1, 32)}, {"CH": F(-1, 32)}], lats=(0,),
                          delays=(0,), fees="free", thr=F(1, 16), maxsteps=5, **kw))
+    # whole lots only: a targeted line whose imbalance is less than one lot (nothing to trade there) sits next to the chain
+    # at the roll; the old lead is still closed and the target re-established in the new lead
+    pw = {"S1": [8, 8, 8, 8, 8, 8, 8], "H19": [12, 12, 12, 12, 12, None, None], "M19": [12, 12, 12, 12, 16, 12, 12],
+          "U19": [16, 16, 16, 16, 16, 16, 16]}
+    evw = bars(grid, pw, 0) + ev[-3:]
+    kww = dict(kw)
+    kww["deposit"] = F(1100)     # 550 / 8 = 68.75 lots of S1: once 68 are held the imbalance stays a fraction of one lot
+    ms.append(full_model("roll-wholelots", cs, ["S1", "CH"], grid, evw, [{"S1": H, "CH": F(1)}, {"S1": H, "CH": F(-1)}, {"CH": H}],
+                         lats=(0,), delays=(0,), fees="free", maxsteps=4, fractional=False, **kww))
     if tier != "quick":
         ms.append(full_model("roll-thr", cs, ["S1", "CH"], grid, ev, tg, lats=(0,), delays=(0,), fees="free", thr=F(1, 16),
                              maxsteps=6, **kw))
